@@ -295,6 +295,16 @@ def do_join(spec, how=None, expect=None):
 
 # ----------------------------------------------------------------- aggregates
 AGG_FUNCS = ("sum", "mean", "min", "max", "count", "stdev")
+from decimal import Decimal as _Dec
+from fractions import Fraction as _Frac
+# value kinds outside int/float/bool: exact arithmetic (Decimal, Fraction), ints beyond 2**53, complex (no order, so no min/max)
+EXOTIC_VALUES = {
+	"Decimal": [_Dec("1.5"), _Dec("0"), _Dec("-2"), _Dec("0.1")],
+	"Fraction": [_Frac(1, 3), _Frac(1, 2), _Frac(3), _Frac(-2, 7)],
+	"bigint": [2 ** 53 + 1, 2 ** 53 + 3, 10 ** 17 + 1, -(2 ** 53) - 1, 3],
+	"complex": [1j, 1 + 2j, complex(2, 0)],
+}
+EXOTIC_ALLOWED = {"Decimal": ("sum", "mean", "min", "max", "count"), "Fraction": ("sum", "mean", "min", "max", "count"), "bigint": ("sum", "min", "max", "count", "mean"), "complex": ("sum", "mean", "count")}
 APPLY_FUNCS = {
 	"tuple": lambda vals: tuple(vals),
 	"first": lambda vals: vals[0],
@@ -329,14 +339,23 @@ def gen_agg_spec(rng, max_rows=8, op=None):
 			key_refs.append({"mode": mode, "name": nm})
 	nvals = rng.choice([1, 2, 3])
 	val_names = []
+	val_kind = {}
 	for j in range(nvals):
-		kind = rng.choice(["int", "int", "float", "bool"])
+		kind = rng.choice(["int", "int", "float", "bool"]) if rng.random() < 0.8 else rng.choice(list(EXOTIC_VALUES))
 		nm = rng.choice([f"v{j}", f"v{j}", "Total $", "2x", "mean", f"v{j}"])
 		while nm in names:
 			nm = nm + "_"
 		names.append(nm)
 		val_names.append(nm)
-		cols.append(V.column(rng, kind, n, rng.choice(["none", "low", "high", "high", "first"]), small=True))
+		val_kind[nm] = kind
+		if kind in EXOTIC_VALUES:
+			col = [rng.choice(EXOTIC_VALUES[kind]) for _ in range(n)]
+			for i in range(n):
+				if rng.random() < 0.25:
+					col[i] = None
+			cols.append(col)
+		else:
+			cols.append(V.column(rng, kind, n, rng.choice(["none", "low", "high", "high", "first"]), small=True))
 	if rng.random() < 0.3:
 		# a whole group of None values: blank the value column wherever the first key equals its first value
 		k0 = keys[0]
@@ -347,7 +366,9 @@ def gen_agg_spec(rng, max_rows=8, op=None):
 	for f in AGG_FUNCS:
 		if rng.random() < 0.45:
 			picks = [rng.choice(val_names) for _ in range(rng.choice([1, 1, 2, 3]))]
-			aggs[f] = [{"mode": rng.choice(["name", "vector"]), "name": p} for p in picks]
+			picks = [p for p in picks if f in EXOTIC_ALLOWED.get(val_kind[p], AGG_FUNCS)]
+			if picks:
+				aggs[f] = [{"mode": rng.choice(["name", "vector"]), "name": p} for p in picks]
 	apply = []
 	if rng.random() < 0.6 or not aggs:
 		for _ in range(rng.choice([1, 2])):
@@ -454,6 +475,25 @@ def gen_csv_spec(rng, max_rows=6):
 		"has_header": has_header, "ncols": ncols, "via": rng.choice(["fileobj", "fileobj", "path"]), "pattern": pattern}
 
 
+def gen_csv_long(rng):
+	"""more than 100 records: every column keeps to one family of cells for the first 100+ records and only then shows other cells (blank cells,
+	numbers in a text column, text in a numeric column, a float among ints, short records)"""
+	ncols = rng.choice([1, 2, 3])
+	head = rng.choice([100, 101, 105, 120])
+	tail = rng.choice([1, 2, 5, 20])
+	fams = {"int": ["1", "-2", "+5", "0", "12"], "float": ["2.5", "1e3", ".5", "-0.25"], "text": ["abc", "x y", "é", "n/a", "zz"], "intfull": ["3"]}
+	others = ["", "7", "2.5", "abc", " 12 ", "1e2", "-3", "nan"]
+	colfam = [rng.choice(list(fams)) for _ in range(ncols)]
+	grid = [[rng.choice(fams[colfam[c]]) for c in range(ncols)] for _ in range(head)]
+	for _ in range(tail):
+		row = [rng.choice(others) if rng.random() < 0.7 else rng.choice(fams[colfam[c]]) for c in range(ncols)]
+		if ncols > 1 and rng.random() < 0.3:
+			del row[rng.randrange(1, ncols):]
+		grid.append(row)
+	header = [f"h{c}" for c in range(ncols)]
+	return {"op": "csv", "header": header, "grid": grid, "delimiter": rng.choice([",", ";"]), "has_header": True, "ncols": ncols, "via": rng.choice(["fileobj", "path"]), "pattern": "long"}
+
+
 def csv_text(spec):
 	buf = io.StringIO()
 	w = _csv.writer(buf, delimiter=spec["delimiter"], lineterminator=rng_lineterm(spec))
@@ -496,6 +536,8 @@ def gen_result_spec(rng):
 		return gen_join_spec(rng, max_rows=5)
 	if r < 0.88:
 		return gen_agg_spec(rng, max_rows=6)
+	if r > 0.985:
+		return gen_csv_long(rng)
 	return gen_csv_spec(rng)
 
 
